@@ -232,10 +232,12 @@ fn st_classic(w: &SWire, s: &[u8]) -> Option<SOut> {
         // cannot even size the message buffer. Not part of this family.
         return None;
     }
-    let mut m: Vec<u8> = (0..w.ct.len() - 17).map(|i| s[i % s.len()]).collect();
-    let pre = m.clone();
+    // caller buffer at a varying alignment (see aead::Buf)
+    let mut mb = crate::mon::aead::sentinel_buf(s, w.ct.len() - 17);
+    let pre = mb.get();
     let mut tag = TAG_SENTINEL;
-    let r = ss::crypto_secretstream_xchacha20poly1305_pull(&mut st, &mut m, &mut tag, &w.ct, w.ad.as_deref());
+    let r = ss::crypto_secretstream_xchacha20poly1305_pull(&mut st, mb.slot(), &mut tag, &w.ct, w.ad.as_deref());
+    let m = mb.get();
     let ok = r.is_ok();
     let err = r.as_ref().err().map(|e| e.to_string()).unwrap_or_default();
     let mut retry_ok = None;
